@@ -192,11 +192,14 @@ def run(ctx):
         finally:
             aem.attrs['ClientAE'] = real
         kinds = [e[0] for e in log]
-        ob('configures-the-find-user-service', ('add_scu', sc.attrs['qr_find_scu']) in [e for e in log if e[0] == 'add_scu'][:1])
+        added = [e for e in log if e[0] == 'add_scu']
+        ob('configures-the-find-user-service', len(added) == 1 and added[0][1] is sc.attrs['qr_find_scu'])
         ob('one-association-to-the-remote-entity', kinds.count('request_association') == 1 and
            [e for e in log if e[0] == 'request_association'][0][1] is remote and kinds.count('enter') == 1)
-        ob('local-ae-title', [e for e in log if e[0] == 'ClientAE'][:1] == [('ClientAE', aet)])
-        ob('service-looked-up-for-the-requested-root', [e for e in log if e[0] == 'get_scu'][:1] == [('get_scu', root)])
+        made = [e for e in log if e[0] == 'ClientAE']
+        ob('local-ae-title', len(made) == 1 and made[0][1] is aet)
+        looked = [e for e in log if e[0] == 'get_scu']
+        ob('service-looked-up-for-the-requested-root', len(looked) == 1 and looked[0][1] is root)
         calls = [e for e in log if e[0] == 'service-called']
         ob('query-handed-to-the-service-once', len(calls) == 1 and len(calls[0][1]) >= 1 and calls[0][1][0] is query)
         exits = [e for e in log if e[0] == 'exit']
